@@ -49,12 +49,28 @@ def tls_hello(sni=None, dtls=False, extra_ext=b"", sni_type=0):
     return b"\x16\x03\x01" + len(hs).to_bytes(2, "big") + hs
 
 
+def tls_hello_records(sni, n=2, extra_ext=b""):
+    """the same handshake message split over n TLS records"""
+    hs = tls_hello(sni, extra_ext=extra_ext)[5:]
+    n = max(1, min(n, len(hs)))
+    cuts = [len(hs) * i // n for i in range(n + 1)]
+    out = b""
+    for i in range(n):
+        part = hs[cuts[i]:cuts[i + 1]]
+        out += b"\x16\x03" + (b"\x01" if i == 0 else b"\x03") + len(part).to_bytes(2, "big") + part
+    return out
+
+
 def tls_hello_two_records(sni):
-    """the same handshake message split over two TLS records"""
-    whole = tls_hello(sni)
-    hs = whole[5:]
-    k = len(hs) // 2
-    return b"\x16\x03\x01" + k.to_bytes(2, "big") + hs[:k] + b"\x16\x03\x03" + (len(hs) - k).to_bytes(2, "big") + hs[k:]
+    return tls_hello_records(sni, 2)
+
+
+CCS = bytes.fromhex("140303000101")                                  # TLS 1.3 middlebox-compatibility ChangeCipherSpec
+EARLY_DATA = bytes.fromhex("1703030018") + bytes(range(0x40, 0x58))   # 0-RTT application data record
+ALERT = bytes.fromhex("15030300020100")
+SECOND_HS = bytes.fromhex("16030300050b00000100")                      # another handshake record after the ClientHello
+DTLS_CCS = bytes.fromhex("14fefd0000000000000001000101")
+TRAILERS = [CCS, EARLY_DATA, CCS + EARLY_DATA, ALERT, SECOND_HS, b"\x00\xffgarbage", b"\x16\x03", CCS[:3], EARLY_DATA + EARLY_DATA]
 
 
 TOKEN = rb"[!#$%&'*+\-.^_`|~0-9A-Za-z]+"
@@ -363,8 +379,8 @@ class Check(PropertyCheck):
     def flight(self, rng, tcp=True):
         """-> (bytes, intent) where intent = {"host": bytes|None, "sni": str|None} or None when the flight is not a complete
         well-formed first flight"""
-        k = rng.weighted([(5, "http"), (4, "tls"), (1, "tls2"), (1, "raw"), (1, "mut"), (1, "trunc")]) if tcp else \
-            rng.weighted([(5, "dtls"), (2, "quicish"), (1, "raw"), (1, "trunc")])
+        k = rng.weighted([(5, "http"), (3, "tls"), (1, "tls2"), (3, "tlsplus"), (1, "raw"), (1, "mut"), (1, "trunc")]) if tcp else \
+            rng.weighted([(4, "dtls"), (1, "dtlsplus"), (2, "quicish"), (1, "raw"), (1, "trunc")])
         if k == "http":
             d = self.head(rng, self.host_value(rng) if rng.chance(0.9) else None)
             return d, "spec"
@@ -373,6 +389,17 @@ class Check(PropertyCheck):
             if sni is not None and ":" in sni: sni = "v6.example"
             d = tls_hello_two_records(sni) if k == "tls2" else tls_hello(sni, dtls=(k == "dtls"),
                                                                           extra_ext=rng.pick([b"", b"\x00\x10\x00\x05\x00\x03\x02h2"]))
+            ok = sni is not None and netcheck.is_valid_host(sni.encode())
+            return d, {"host": None, "sni": sni if ok else None}
+        if k in ("tlsplus", "dtlsplus"):
+            # a complete ClientHello (1..n records) FOLLOWED by other records / bytes already in the first flight
+            sni = rng.pick(self.HOSTS[:5] + [None, "a.example"])
+            ext = rng.pick([b"", b"\x00\x10\x00\x05\x00\x03\x02h2"])
+            if k == "dtlsplus":
+                d = tls_hello(sni, dtls=True, extra_ext=ext) + rng.pick([DTLS_CCS, DTLS_CCS + b"\x17\xfe\xfd" + bytes(10) + b"\x00\x02ab", b"\x00junk"])
+            else:
+                d = tls_hello_records(sni, rng.randint(1, 4), ext) + rng.pick(TRAILERS)
+                if rng.chance(0.2): d += rng.pick(TRAILERS)
             ok = sni is not None and netcheck.is_valid_host(sni.encode())
             return d, {"host": None, "sni": sni if ok else None}
         if k == "quicish":
@@ -460,7 +487,16 @@ class Check(PropertyCheck):
             for i in range(len(d) + 1):
                 yield {"kind": "hh", "tcp": 1, "dc_hex": hx(d[:i]), "ds_hex": "-", "full_hex": hx(d)}
         # every single cut of two short flights end to end
-        short = [(b"GET / HTTP/1.1\r\nHost:example.com\r\n\r\n", "spec"), (tls_hello("example.com"), {"host": None, "sni": "example.com"})]
+        short = [(b"GET / HTTP/1.1\r\nHost:example.com\r\n\r\n", "spec"), (tls_hello("example.com"), {"host": None, "sni": "example.com"}),
+                 (tls_hello("example.com") + CCS + EARLY_DATA, {"host": None, "sni": "example.com"}),
+                 (tls_hello_records("example.com", 3) + CCS, {"host": None, "sni": "example.com"})]
+        # unit level: a ClientHello followed by every trailer, ignore and allow rule matching by SNI only
+        for tr in TRAILERS:
+            for n in (1, 2, 3):
+                d = tls_hello_records("example.com", n) + tr
+                for rules in ({"ignore": [{"s": 0, "e": 0, "lit": "example.com"}], "allow": []}, {"ignore": [], "allow": [{"s": 0, "e": 0, "lit": "example.com"}]}):
+                    yield {"kind": "ig", "cfg": dict(rules, tcp=1, wg=0, peer=None, addr=["192.0.2.1", 443], csni=None), "dc_hex": hx(d), "ds_hex": "-",
+                           "intent": {"sni": "example.com"}}
         for base in short:
             step = 1 if tier == "thorough" else 3
             for cut in range(1, len(base[0]), step):
@@ -486,6 +522,8 @@ class Check(PropertyCheck):
             else:
                 dtls = rng.chance(0.25)
                 d = tls_hello(rng.pick(self.HOSTS[:4] + [None]), dtls=dtls)
+                if not dtls and rng.chance(0.4): d = tls_hello_records(rng.pick(self.HOSTS[:4]), rng.randint(1, 3)) + rng.pick(TRAILERS)
+                elif dtls and rng.chance(0.3): d += DTLS_CCS
                 if rng.chance(0.15): d = self.mutate(rng, d)
                 segs = [d] if dtls else rng.split(d, rng.randint(1, 4))
                 yield {"kind": "tlsig", "dtls": int(dtls), "flight": [hx(s) for s in segs], "after": [hx(rng.pick([b"\x17\x03\x03\x00\x02ab", b"zz"])) for _ in range(rng.randint(0, 2))]}
